@@ -1,4 +1,4 @@
-import AmVerif.Model.Reload
+import AmVerif.Model.History
 import AmVerif.Lemmas.World
 /-!
 # Lemmas about one hot-reloading pass (`reloadUntyped`, `reloadAll`, `runUpdate`, …)
@@ -215,33 +215,40 @@ theorem Added.of_map_eq {P} {s t : St} (e : t.map = s.map) : Added P s t := by
 /-- `P` holds of every cell a load creates under `env`. -/
 def NewCellsSat (env : Env) (P : Key → Cell → Prop) : Prop := ∀ key v addr, P key (newCell env key.ty v addr)
 
+/-- keep-first insertion of a cell satisfying `P` -/
+theorem Added.ins_cell {P : Key → Cell → Prop} (s : St) (key : Key) (c0 : Cell) (h0 : P key c0) :
+    Added P s (s.insertKeepFirst key c0).1 := by
+  intro k c hc
+  by_cases hk : k = key
+  · subst hk
+    have h := St.insertKeepFirst_lookup s k c0
+    rw [h.1] at hc
+    cases hs : s.lookup k with
+    | some x =>
+      left
+      rw [h.2, hs] at hc
+      simpa using hc
+    | none =>
+      right
+      rw [h.2, hs] at hc
+      have : c0 = c := by simpa using hc
+      rw [← this]; exact h0
+  · left
+    rw [St.insertKeepFirst_other s key k _ hk] at hc
+    exact hc
+
+theorem Added.congr {P} {s t s' t' : St} (hs : s'.map = s.map) (ht : t'.map = t.map) (h : Added P s t) :
+    Added P s' t' := by
+  intro k c hc
+  rw [St.lookup_congr ht k] at hc
+  rw [St.lookup_congr hs k]
+  exact h k c hc
+
 theorem Added.mapRel {env : Env} {P : Key → Cell → Prop} (hP : NewCellsSat env P) : MapRel env (Added P) where
   refl := Added.refl P
   trans := Added.trans
-  congr := by
-    intro s t s' t' hs ht h k c hc
-    rw [St.lookup_congr ht k] at hc
-    rw [St.lookup_congr hs k]
-    exact h k c hc
-  ins := by
-    intro s key v addr k c hc
-    by_cases hk : k = key
-    · subst hk
-      have h := St.insertKeepFirst_lookup s k (newCell env k.ty v addr)
-      rw [h.1] at hc
-      cases hs : s.lookup k with
-      | some x =>
-        left
-        rw [h.2, hs] at hc
-        simpa using hc
-      | none =>
-        right
-        rw [h.2, hs] at hc
-        have : newCell env k.ty v addr = c := by simpa using hc
-        rw [← this]; exact hP k v addr
-    · left
-      rw [St.insertKeepFirst_other s key k _ hk] at hc
-      exact hc
+  congr := Added.congr
+  ins := fun s key v addr => Added.ins_cell s key _ (hP key v addr)
 
 theorem St.Le.mapRel (env : Env) : MapRel env St.Le where
   refl := St.Le.refl
@@ -666,5 +673,220 @@ theorem handleEvents_ev (env : Env) (fuel : Nat) (s : St) (r : RSt) (evs : List 
   (St.Ev.passRel env fuel).handleEvents_rel s r evs
 theorem hotReload_ev (env : Env) (fuel : Nat) (s : St) (r : RSt) : s.Ev (hotReload env fuel s r).1 := (St.Ev.passRel env fuel).hotReload_rel s r
 theorem enhance_ev (env : Env) (fuel : Nat) (s : St) (r : RSt) : s.Ev (enhance env fuel s r).1 := (St.Ev.passRel env fuel).enhance_rel s r
+
+/-! ## API operations -/
+
+/-- the cell `get_or_insert` creates (`add_any`) -/
+def insertedCell (env : Env) (key : Key) (v : Val) (addr : Nat) : Cell :=
+  { val := v, dyn := insertedEntryDynamic (env.types key.ty).hot env.hasReloader,
+    rid := ReloadId_NEVER, flag := false, addr := addr }
+
+/-- `P` holds of every cell an API operation creates under `env` (by a load or by `get_or_insert`). -/
+def EnvCellsSat (env : Env) (P : Key → Cell → Prop) : Prop :=
+  NewCellsSat env P ∧ ∀ key v addr, P key (insertedCell env key v addr)
+
+theorem MapRel.evalTop_rel {env : Env} {R : St → St → Prop} (h : MapRel env R) (fuel : Nat) (s : St) (p : Prog) :
+    R s (evalTop env fuel s p).1 := by
+  unfold evalTop
+  exact h.congr (s := { s with recs := [] }) (t := (eval env fuel { s with recs := [] } p).1) rfl rfl
+    (h.eval_rel fuel _ p)
+
+theorem step_load_fst (env : Env) (fuel : Nat) (s : St) (key : Key) :
+    (step env fuel s (.load key)).1 = (evalTop env fuel s (.load key Prog.ret')).1 := by
+  simp only [step]
+  generalize evalTop env fuel s (.load key Prog.ret') = x
+  obtain ⟨s1, o⟩ := x
+  cases o <;> rfl
+
+theorem step_loadOwned_fst (env : Env) (fuel : Nat) (s : St) (key : Key) :
+    (step env fuel s (.loadOwned key)).1 = (evalTop env fuel s (.loadOwned key Prog.ret')).1 := rfl
+
+theorem find_filter_ne (m : List (Key × Cell)) (key k : Key) :
+    ((m.filter (·.1 ≠ key)).find? (·.1 = k)).map (·.2) =
+      if k = key then none else (m.find? (·.1 = k)).map (·.2) := by
+  induction m with
+  | nil => simp
+  | cons x xs ih =>
+    by_cases hx : x.1 = key
+    · have : (x :: xs).filter (·.1 ≠ key) = xs.filter (·.1 ≠ key) := by simp [hx]
+      rw [this, ih]
+      by_cases hk : k = key
+      · simp [hk]
+      · have hxk : ¬ x.1 = k := fun e => hk (e.symm.trans hx)
+        simp [hk, hxk]
+    · have : (x :: xs).filter (·.1 ≠ key) = x :: xs.filter (·.1 ≠ key) := by simp [hx]
+      rw [this]
+      by_cases hxk : x.1 = k
+      · have hk : ¬ k = key := fun e => hx (hxk.trans e)
+        simp [hxk, hk]
+      · simp only [List.find?_cons, hxk, decide_false]
+        exact ih
+
+/-- the map after `remove` / `take` -/
+theorem lookup_removed (s : St) (key k : Key) :
+    St.lookup { s with map := s.map.filter (·.1 ≠ key) } k = if k = key then none else s.lookup k := by
+  unfold St.lookup; exact find_filter_ne s.map key k
+
+/-- An operation that does not remove `k` leaves the cell stored under `k` alone. -/
+theorem step_keeps (env : Env) (fuel : Nat) (s : St) (op : Op) (k : Key) (c : Cell)
+    (hop : op.removes k = false) (h : s.lookup k = some c) : (step env fuel s op).1.lookup k = some c := by
+  cases op with
+  | load key => rw [step_load_fst]; exact (St.Le.mapRel env).evalTop_rel fuel s _ k c h
+  | loadOwned key => rw [step_loadOwned_fst]; exact (St.Le.mapRel env).evalTop_rel fuel s _ k c h
+  | getCached key => exact h
+  | contains key => exact h
+  | getOrInsert key v =>
+    simp only [step]
+    cases hl : s.lookup key with
+    | some c' => exact h
+    | none =>
+      simp only []
+      have := St.insertKeepFirst_le s key (insertedCell env key v s.next) k c h
+      rw [← this]; exact St.lookup_congr rfl k
+  | remove key =>
+    have hk : ¬ k = key := by
+      intro e; simp [Op.removes, e] at hop
+    simp only [step]; rw [lookup_removed]; simp [hk, h]
+  | take key =>
+    have hk : ¬ k = key := by
+      intro e; simp [Op.removes, e] at hop
+    simp only [step]; rw [lookup_removed]; simp [hk, h]
+  | clear => simp [Op.removes] at hop
+
+/-- Every cell stored after an API operation was stored before (same key, unchanged) or was created
+by this operation. -/
+theorem step_added (env : Env) (fuel : Nat) (s : St) (op : Op) (P) (hP : EnvCellsSat env P) :
+    Added P s (step env fuel s op).1 := by
+  cases op with
+  | load key => rw [step_load_fst]; exact (Added.mapRel hP.1).evalTop_rel fuel s _
+  | loadOwned key => rw [step_loadOwned_fst]; exact (Added.mapRel hP.1).evalTop_rel fuel s _
+  | getCached key => exact Added.refl P s
+  | contains key => exact Added.refl P s
+  | getOrInsert key v =>
+    simp only [step]
+    cases hl : s.lookup key with
+    | some c' => exact Added.refl P s
+    | none =>
+      simp only []
+      exact (Added.ins_cell s key (insertedCell env key v s.next) (hP.2 key v s.next)).trans (Added.of_map_eq rfl)
+  | remove key =>
+    intro k c h
+    simp only [step] at h; rw [lookup_removed] at h
+    by_cases hk : k = key
+    · simp [hk] at h
+    · simp only [hk, if_false] at h; exact Or.inl h
+  | take key =>
+    intro k c h
+    simp only [step] at h; rw [lookup_removed] at h
+    by_cases hk : k = key
+    · simp [hk] at h
+    · simp only [hk, if_false] at h; exact Or.inl h
+  | clear =>
+    intro k c h
+    simp [step, St.lookup] at h
+
+/-! ## Invariants of stored cells -/
+
+/-- every stored cell satisfies `I` -/
+def St.All (I : Key → Cell → Prop) (s : St) : Prop := ∀ k c, s.lookup k = some c → I k c
+
+/-- `I` survives a `write` -/
+def WriteStable (I : Key → Cell → Prop) : Prop := ∀ k c v, I k c → c.dyn = true → I k (c.written v)
+
+theorem reloadUntyped_all (env : Env) (fuel : Nat) (s : St) (key : Key) (I) (hw : WriteStable I)
+    (hn : NewCellsSat env I) (hs : s.All I) : (reloadUntyped env fuel s key).1.All I := by
+  cases hc : s.lookup key with
+  | none => rw [reloadUntyped_absent env fuel s key hc]; exact hs
+  | some c0 =>
+    obtain ⟨s1, hle, hadd, hcase⟩ := reloadUntyped_cases env fuel s key c0 hc
+    have h1 : s1.All I := by
+      intro k c h
+      rcases hadd I hn k c h with h' | h'
+      · exact hs k c h'
+      · exact h'
+    rcases hcase with ⟨o, _, e⟩ | ⟨v, deps, hd, _, e⟩
+    · rw [e]; exact h1
+    · rw [e]
+      intro k c h
+      simp only [] at h
+      by_cases hk : k = key
+      · subst hk
+        rw [St.setCell_lookup_self _ _ _ c0 (hle k c0 hc)] at h
+        have : c0.written v = c := by simpa using h
+        rw [← this]; exact hw k c0 v (hs k c0 hc) hd
+      · rw [St.setCell_lookup_other _ _ _ _ hk] at h
+        exact h1 k c h
+
+theorem allRel_passRel (env : Env) (fuel : Nat) (I) (hw : WriteStable I) (hn : NewCellsSat env I) :
+    PassRel env fuel (fun s t => s.All I → t.All I) where
+  refl := fun _ h => h
+  trans := fun h1 h2 h => h2 (h1 h)
+  of_map_eq := by
+    intro s t e h k c hc
+    rw [St.lookup_congr e k] at hc; exact h k c hc
+  all := by
+    intro keys s r
+    refine reloadAll_ind env fuel (fun _ s t => s.All I → t.All I) (fun _ h => h) ?_ keys s r
+    intro k ks s s1 s2 h1 h2 hs
+    rcases h1 with rfl | rfl
+    · exact h2 hs
+    · exact h2 (reloadUntyped_all env fuel s k I hw hn hs)
+
+theorem step_all (env : Env) (fuel : Nat) (s : St) (op : Op) (I) (hP : EnvCellsSat env I) (hs : s.All I) :
+    (step env fuel s op).1.All I := by
+  intro k c h
+  rcases step_added env fuel s op I hP k c h with h' | h'
+  · exact hs k c h'
+  · exact h'
+
+/-! ## Histories -/
+
+theorem hstep_all (fuel : Nat) (e : Env × HOp) (x : St × RSt) (I) (hw : WriteStable I)
+    (hP : EnvCellsSat e.1 I) (hs : x.1.All I) : (hstep fuel e x).1.All I := by
+  obtain ⟨env, op⟩ := e
+  obtain ⟨s, r⟩ := x
+  cases op with
+  | api op => exact step_all env fuel s op I hP hs
+  | notify evs => exact (allRel_passRel env fuel I hw hP.1).handleEvents_rel s r evs hs
+  | hotReload => exact (allRel_passRel env fuel I hw hP.1).hotReload_rel s r hs
+  | enhance => exact (allRel_passRel env fuel I hw hP.1).enhance_rel s r hs
+
+theorem runH_all (fuel : Nat) (I) (hw : WriteStable I) (h : List (Env × HOp)) (x : St × RSt)
+    (hP : ∀ e ∈ h, EnvCellsSat e.1 I) (hs : x.1.All I) : (runH fuel h x).1.All I := by
+  induction h generalizing x with
+  | nil => exact hs
+  | cons e es ih =>
+    simp only [runH]
+    exact ih _ (fun e' he' => hP e' (List.mem_cons_of_mem _ he'))
+      (hstep_all fuel e x I hw (hP e List.mem_cons_self) hs)
+
+/-- One step that does not remove `k` keeps the cell stored under `k`, evolved. -/
+theorem hstep_ev (fuel : Nat) (e : Env × HOp) (x : St × RSt) (k : Key) (c : Cell)
+    (hop : e.2.removes k = false) (h : x.1.lookup k = some c) :
+    ∃ c', (hstep fuel e x).1.lookup k = some c' ∧ c.Ev c' := by
+  obtain ⟨env, op⟩ := e
+  obtain ⟨s, r⟩ := x
+  cases op with
+  | api op => exact ⟨c, step_keeps env fuel s op k c hop h, Cell.Ev.refl c⟩
+  | notify evs => exact handleEvents_ev env fuel s r evs k c h
+  | hotReload => exact hotReload_ev env fuel s r k c h
+  | enhance => exact enhance_ev env fuel s r k c h
+
+theorem runH_ev (fuel : Nat) (h : List (Env × HOp)) (x : St × RSt) (k : Key) (c : Cell)
+    (hop : ∀ e ∈ h, e.2.removes k = false) (hc : x.1.lookup k = some c) :
+    ∃ c', (runH fuel h x).1.lookup k = some c' ∧ c.Ev c' := by
+  induction h generalizing x c with
+  | nil => exact ⟨c, hc, Cell.Ev.refl c⟩
+  | cons e es ih =>
+    simp only [runH]
+    obtain ⟨c1, h1, e1⟩ := hstep_ev fuel e x k c (hop e List.mem_cons_self) hc
+    obtain ⟨c2, h2, e2⟩ := ih (hstep fuel e x) c1 (fun e' he' => hop e' (List.mem_cons_of_mem _ he')) h1
+    exact ⟨c2, h2, e1.trans e2⟩
+
+theorem runH_append (fuel : Nat) (h1 h2 : List (Env × HOp)) (x : St × RSt) :
+    runH fuel (h1 ++ h2) x = runH fuel h2 (runH fuel h1 x) := by
+  induction h1 generalizing x with
+  | nil => rfl
+  | cons e es ih => simp only [List.cons_append, runH]; exact ih _
 
 end AmVerif.Model
